@@ -1,12 +1,12 @@
 #!/venv/bin/python
 """Copies behaviour-preserving refactorings from the sub-agents' worktrees into /verif/refactorings/<id>/ after re-verifying them
 (patch applies on /repo HEAD, compiles, pinned suite unchanged). Verification runs on scratch copies (git archive), 8 at a time."""
-import json, multiprocessing as mp, shutil, subprocess, sys, tempfile
+import json, multiprocessing as mp, os, shutil, subprocess, sys, tempfile
 from pathlib import Path
 
 VERIF = Path(__file__).resolve().parents[1]
-out = VERIF / "refactorings"
-SRC = Path("/tmp/refac")
+out = VERIF / os.environ.get("REFAC_OUT", "refactorings")
+SRC = Path(os.environ.get("REFAC_SRC", "/tmp/refac"))
 
 
 def verify(sd: Path):
@@ -28,7 +28,7 @@ def verify(sd: Path):
 def main():
     out.mkdir(exist_ok=True)
     todo = []
-    for sd in sorted(SRC.glob("C*/REFAC/C*-*")):
+    for sd in sorted(SRC.glob("*/REFAC/C*-*")):
         dst = out / sd.name
         if (dst / "meta.json").exists() and "--force" not in sys.argv:
             continue
